@@ -137,6 +137,12 @@ func TestC15Gaps(t *testing.T) {
 	nshards := envInt("VERIF_NSHARDS", 1)
 	shardIdx := envInt("VERIF_SHARD_INDEX", 0)
 	progs := corpusTokenPrograms(t)
+	// programs the corpus does not have: empty bodies, an empty find before another command
+	progs["extra_empty_find"] = []string{"find", "all"}
+	progs["extra_empty_find_then_find"] = []string{"find", "all", "find", "all", "'a'"}
+	progs["extra_empty_group"] = []string{"find", "all", "(", ")", "'a'", "{", "}", "=", "s"}
+	progs["extra_three_way_or"] = []string{"find", "all", "'cat'", "or", "'dog'", "or", "'emu'", "or", "not", "'x'"}
+	progs["extra_true_false"] = []string{"set", "f", "to", "function", "if", "true", "and", "not", "false", "then", "return", "'y'", "end", "return", "'n'", "end", "replace", "all", "'a'", "with", "f"}
 	names := make([]string, 0, len(progs))
 	for n := range progs {
 		names = append(names, n)
@@ -150,6 +156,9 @@ func TestC15Gaps(t *testing.T) {
 		}
 		toks := progs[name]
 		base := strings.Join(toks, " ")
+		if _, ok := corpus[name]; !ok {
+			corpus[name] = base
+		}
 		c0 := LayoutCase{Orig: corpus[name], Variant: base, Texts: corpusTexts}
 		st.Eval()
 		if sig, what := checkLayoutCase(c0); sig != "" {
@@ -165,7 +174,7 @@ func TestC15Gaps(t *testing.T) {
 					seps[j] = " "
 				}
 				seps[0], seps[len(toks)] = "", ""
-				seps[gap] = sepOf(kind, "c")
+				seps[gap] = sepOf(kind, []string{"c", "x )-", "( a (b) c )"}[(gap+len(toks))%3])
 				variant := Layout(toks, seps)
 				c := LayoutCase{Orig: base, Variant: variant, Texts: corpusTexts}
 				st.Eval()
